@@ -6,8 +6,13 @@ import (
 	"fmt"
 	"strings"
 
+	"github.com/cossacklabs/themis/gothemis/keys"
+
 	"verifharness/internal/core"
 	env "verifharness/internal/envops"
+
+	_ "verifharness/internal/c09" // registers C09.hmac
+	_ "verifharness/internal/c15" // registers C15.create
 )
 
 func init() { core.RegisterProp("C01", run) }
@@ -191,6 +196,7 @@ func crossLens(r *core.Run) []int {
 // (hash passed separately or concatenated), and the request checks (client id, additional context, keys).
 func translatorOps(r *core.Run) {
 	g := r.Rand
+	poisonWitness(r)
 	for _, l := range crossLens(r) {
 		m, class := env.Plain(g, l)
 		wst, rst := mkStores(r)
@@ -241,6 +247,32 @@ func translatorOps(r *core.Run) {
 					for _, bad := range [][2]string{{"nil", "nil"}, {idTok, "-"}, {idTok, core.Hex(g.Bytes(1 + g.Intn(4)))}} {
 						out := r.Do(fmt.Sprintf("C01.tr.%s %s %s %s %s %s", op, rst.Tokens(), bad[0], bad[1], core.Hex(h), core.Hex(p)))
 						r.Check(firstTwo(out) == core.Err, "tr-request-check", fmt.Sprintf("%s answered %s to client id %s / additional context %s", op, short(out), bad[0], bad[1]))
+					}
+				}
+			}
+			// a poison record sent to the decrypt operations of this kind: alarm (when callbacks are configured), error
+			if g.Intn(3) == 0 {
+				pkind := []string{"struct", "block"}[g.Intn(2)]
+				if rec, ok := hexOf(r.Do(fmt.Sprintf("C15.create %s %s %d %s", pkind, rst.Poison.Tokens(), 1+g.Intn(40), core.Hex(g.Bytes(160))))); ok {
+					r.Begin(fmt.Sprintf("trpoison-%s-%s-%x", kind, pkind, rec[12:20]), true, "entry:translator-poison", "kind:"+kind)
+					wantAlarm := "err 0"
+					if rst.HasCb {
+						wantAlarm = "err 1"
+					}
+					lines := []string{
+						fmt.Sprintf("C01.tr.%s %s %s nil %s", trOp(kind, "Decrypt", "DecryptSym"), rst.Tokens(), idTok, core.Hex(rec)),
+						fmt.Sprintf("C01.tr.%s %s %s nil nil %s", trOp(kind, "DecryptSearchable", "DecryptSymSearchable"), rst.Tokens(), idTok, core.Hex(rec)),
+						fmt.Sprintf("C01.tr.%s %s %s nil - %s", trOp(kind, "DecryptSearchable", "DecryptSymSearchable"), rst.Tokens(), idTok, core.Hex(rec)),
+						fmt.Sprintf("C01.tr.%s %s %s nil %s %s", trOp(kind, "DecryptSearchable", "DecryptSymSearchable"), rst.Tokens(), idTok, core.Hex(append([]byte{127}, g.Bytes(32)...)), core.Hex(rec)),
+						fmt.Sprintf("C01.tr.%s %s %s nil %s %s", trOp(kind, "DecryptSearchable", "DecryptSymSearchable"), rst.Tokens(), idTok, core.Hex([]byte("not a hash")), core.Hex(rec)),
+					}
+					for li, line := range lines {
+						out := r.Do(line)
+						if li == 0 && byLen && len(wst.ID) == 0 { // Decrypt refuses the empty client id before anything else
+							r.Check(out == "err 0", "tr-empty-id", "Decrypt accepted an empty client id: "+short(out))
+							continue
+						}
+						r.Check(out == wantAlarm, "tr-poison", fmt.Sprintf("%s on a poison %s record answered %q, want %q", strings.Fields(line)[0], pkind, short(out), wantAlarm))
 					}
 				}
 			}
@@ -307,4 +339,32 @@ func short(s string) string {
 		return s[:80] + "…"
 	}
 	return s
+}
+
+// poisonWitness: regression corpus of the repaired defect "DecryptSearchable returned its error without
+// running the poison detector when no hash could be split off" (repo-patches/51-…): fixed keys, fixed
+// random stream; run first on every run.
+func poisonWitness(r *core.Run) {
+	seed := func(b byte) []byte { return bytes.Repeat([]byte{b}, 32) }
+	pkp := keys.NewFromSeed(seed(1))
+	pk := &env.KV{Pub: pkp.Public.Value, Privs: [][]byte{pkp.Private.Value}, Sym: seed(2), Syms: [][]byte{seed(2)}}
+	ckp := keys.NewFromSeed(seed(3))
+	st := &Store{HasCb: true, Poison: pk, ID: []byte("client"), KV: &env.KV{Pub: ckp.Public.Value, Privs: [][]byte{ckp.Private.Value}, Sym: seed(4), Syms: [][]byte{seed(4)}}, Hmac: seed(5)}
+	rnd := make([]byte, 120)
+	for i := range rnd {
+		rnd[i] = byte(7*i + 1)
+	}
+	for _, pkind := range []string{"struct", "block"} {
+		rec, ok := hexOf(r.Do(fmt.Sprintf("C15.create %s %s 10 %s", pkind, pk.Tokens(), core.Hex(rnd))))
+		r.Begin("corpus-poison-searchable-"+pkind, true, "stream:corpus", "entry:translator-poison")
+		if !r.Check(ok, "corpus-broken", "cannot create the poison record of the regression witness") {
+			continue
+		}
+		for _, op := range []string{"DecryptSearchable", "DecryptSymSearchable"} {
+			for _, h := range []string{"nil", "-", core.Hex([]byte("junk"))} {
+				out := r.Do(fmt.Sprintf("C01.tr.%s %s %s nil %s %s", op, st.Tokens(), core.Hex(st.ID), h, core.Hex(rec)))
+				r.Check(out == "err 1", "tr-poison-searchable-no-hash", fmt.Sprintf("%s(poison %s record, hash %s) answered %q: the intrusion callbacks did not run exactly once with an error for the client", op, pkind, h, out))
+			}
+		}
+	}
 }
